@@ -637,9 +637,14 @@ func genBytes(t *rapid.T, text bool, ctx *genCtx, chance int) []byte {
 		return []byte(pre + rapid.SampledFrom(invalidUTF8).Draw(t, "badutf8"))
 	}
 	var l int
-	switch rapid.IntRange(0, 3).Draw(t, "lmode") {
+	switch rapid.IntRange(0, 5).Draw(t, "lmode") {
 	case 0:
 		l = rapid.SampledFrom([]int{0, 1, 22, 23, 24, 25, 254, 255, 256, 257}).Draw(t, "lclass")
+	case 1:
+		// around powers of two (inline-buffer / chunk sizes of an implementation, not of the format)
+		l = rapid.SampledFrom([]int{15, 16, 17, 31, 32, 33, 62, 63, 64, 65, 66, 127, 128, 129, 511, 512, 513, 1023, 1024, 1025, 4095, 4096, 4097}).Draw(t, "lpow2")
+	case 2:
+		l = rapid.IntRange(0, 300).Draw(t, "lany")
 	default:
 		l = rapid.IntRange(0, 6).Draw(t, "lsmall")
 	}
@@ -943,4 +948,72 @@ func TestExhaustiveInts(t *testing.T) {
 		}
 	}
 	vh.Exhaustive("ints", fmt.Sprintf("every uint64 within +-3 of 0, 24, 2^8, 2^16, 2^32, 2^63, 2^64-1 (EncodeUint; EncodeArrayHeader for those <= MaxInt64), every int64 within +-3 of 0, +-24, +-2^8, +-2^16, +-2^32, MinInt64, MaxInt64 (EncodeInt), byte and text strings of length 0,1,22..25,254..257,65534..65537: %d calls, exact output bytes compared", n))
+}
+
+// TextCase: one text string given to EncodeTextString (content in hex).
+type TextCase struct {
+	Content vh.B `json:"content"`
+}
+
+var textProp = vh.Define("C11", "text", textPropEval)
+
+func textPropEval(c TextCase, r *vh.R) {
+	var buf bytes.Buffer
+	err := cbor.NewEncoder(&buf).EncodeTextString(string(c.Content))
+	valid := utf8.Valid(c.Content)
+	r.NT()
+	if !valid {
+		if err == nil {
+			r.Failf("invalid-utf8-accepted", "EncodeTextString(%x) succeeded for invalid UTF-8 and wrote %x", trunc(c.Content), trunc(buf.Bytes()))
+		} else if buf.Len() != 0 {
+			r.Failf("invalid-utf8-wrote", "EncodeTextString(%x) refused the string but wrote %x", trunc(c.Content), trunc(buf.Bytes()))
+		}
+		return
+	}
+	want := append(refcbor.HeadW(3, uint64(len(c.Content)), refcbor.MinWidth(uint64(len(c.Content)))), c.Content...)
+	if err != nil || !bytes.Equal(buf.Bytes(), want) {
+		r.Failf("wrong-bytes", "EncodeTextString(%x) (valid UTF-8): err=%v output %x, want %x", trunc(c.Content), err, trunc(buf.Bytes()), trunc(want))
+	}
+}
+
+// TestExhaustiveCodePoints: every code point U+0000..U+10FFFF (surrogates encoded the generalised
+// way = invalid UTF-8) alone and after an ASCII prefix through EncodeTextString: refused exactly
+// when the content is not valid UTF-8 (Go's unicode/utf8 as the judge), else the exact item.
+func TestExhaustiveCodePoints(t *testing.T) {
+	enc := func(cp rune) []byte {
+		switch {
+		case cp < 0x80:
+			return []byte{byte(cp)}
+		case cp < 0x800:
+			return []byte{0xc0 | byte(cp>>6), 0x80 | byte(cp)&0x3f}
+		case cp < 0x10000:
+			return []byte{0xe0 | byte(cp>>12), 0x80 | byte(cp>>6)&0x3f, 0x80 | byte(cp)&0x3f}
+		}
+		return []byte{0xf0 | byte(cp>>18), 0x80 | byte(cp>>12)&0x3f, 0x80 | byte(cp>>6)&0x3f, 0x80 | byte(cp)&0x3f}
+	}
+	var evals int64
+	classes := map[string]int64{}
+	for cp := rune(0); cp < 0x110000; cp++ {
+		for variant := 0; variant < 2; variant++ {
+			content := enc(cp)
+			if variant == 1 {
+				content = append([]byte("ab"), content...)
+			}
+			c := TextCase{Content: content}
+			r := &vh.R{}
+			textPropEval(c, r)
+			evals++
+			if utf8.Valid(content) {
+				classes["codepoint-valid"]++
+			} else {
+				classes["codepoint-surrogate"]++
+			}
+			if r.V != nil {
+				textProp.One(t, c)
+				t.Fatalf("c11: U+%04X: %s", cp, r.V.Msg)
+			}
+		}
+	}
+	vh.Bulk("text", evals, evals, classes, TextCase{Content: enc(0xfffd)})
+	vh.Exhaustive("text", "EncodeTextString of each of the 0x110000 code points (surrogate range = invalid UTF-8) alone and after an ASCII prefix: refused iff invalid, else exact bytes")
 }
